@@ -34,6 +34,19 @@ CHECKS = {
         "64-bit path only (MurmurHash64B/ARM not modelled).",
    technique="Lean 4 proof (hash_eq_reference, reads_in_bounds) + correspondence run",
    design="6/C14"),
+ "C17": dict(
+   text="Kernel-checked Lean theorems over a transcription of WARCReader::Read (ReadMore, header lines, strtoll, overhang, body loop) "
+        "on a chunked source: every fragmentation gives the same records and verdict; the returned records tile the input byte for "
+        "byte (no gap, no overlap, no resynchronisation), each starting with the version line and ending in CRLF CRLF; streams of "
+        "well-formed records (any body bytes, sizes below 2^63) are read back exactly; truncation inside a record, a missing "
+        "version line, missing/duplicate/negative Content-Length are errors (the 2^63 saturation corner is proved as "
+        "*_false counterexamples). Tied to the real reader with read(2) interposed at every split point, a malformed corpus and an "
+        "independent framing oracle; warc_parallel (-j 1..8, -i, -z) is decided at the tool level as a multiset of whole records "
+        "with one gzip member per record, its queues being C16's.",
+   note="Trusted: Lean kernel + standard axioms; hand-written model tied by bounded differential execution; warc_parallel's "
+        "thread structure is not in this model (C16 LTS + tool-level observation).",
+   technique="Lean 4 proof (chunking_independent, records_tile_input, read_exact, rejection theorems) + correspondence run",
+   design="6/C17"),
  "C10": dict(
    text="Kernel-checked Lean theorems over an index-arithmetic model of RangeFields/IndividualFields/ParseFields/DefragmentFields: "
         "the pieces handed to the key hash are exactly what cut selects (per range, selected fields joined by the delimiter) for "
